@@ -17,6 +17,11 @@ dsxt == <<D, S, XT>>    dszt == <<D, S, ZT>>    dsuxt == <<D, S, U, XT>>
 dsdx == <<D, SD, X>>    ext == <<E, XT>>        esyg == <<E, S, YG>>
 ff == <<<<"f">>>>                               \* a regular file where a rule expects a directory
 pp == <<<<"p">>>>                               \* a FIFO where a rule expects a directory
+\* entries INSIDE populated directories that are neither regular files nor directories (the adapter makes a FIFO of a
+\* name beginning with q and a dangling symbolic link of a name beginning with l), without an extension and with
+\* extensions the rules accept: d/q  d/q.txt  d/l.png  d/s/l  d/s/q.tar.gz  e/l.txt
+dq == <<D, <<"q">>>>    dqt == <<D, <<"q", "txt">>>>    dlp == <<D, <<"l", "png">>>>
+dsl == <<D, S, <<"l">>>>    dsqg == <<D, S, <<"q", "tar", "gz">>>>    elt == <<E, <<"l", "txt">>>>
 dxzt == <<D, X, ZT>>    dxuxt == <<D, X, U, XT>>                \* below a DIRECTORY d/x (d/x is a file in other trees)
 FileU == {dx, dxt, dxp, dyg, dsxt, dszt, dsuxt, dsdx, ext, esyg, ff}
 DFiles == {dx, dxt, dxp, dyg, dsxt}            \* where keys clash under trim_extensions
@@ -29,6 +34,8 @@ TreeP(F, Em, Sp) == [files |-> F, dirs |-> (UNION {Prefixes(Front(p)) : p \in F}
                      specials |-> Sp]
 Tree(F, Em) == TreeP(F, Em, {})
 RichTrees == {TreeP({dxt, ff}, {dt}, {pp}),
+              TreeP({dxt, dsxt}, {dt}, {dq, dqt, dlp, dsl, dsqg}), TreeP({dxp, dyg, ext}, {}, {dqt, dlp, elt}),
+              TreeP({}, {DS, RE}, {dq, dqt, dsl, elt}),          \* nothing but special entries below the rule directories
               Tree({dx, dxt, dxp}, {}), Tree({dxt, dxp, dyg, dsxt}, {dt}), Tree({dxt, dszt, dsuxt, ext}, {dtt}),
               Tree({dx, dsdx, dyg, ff}, {dst}), Tree({dxt, dxp, dsxt, dszt, esyg}, {dt, dtt}),
               Tree({}, {RD}), Tree({}, {dt, RE}), Tree({dsuxt}, {dst, dtt}), Tree({dx, dxt, dxp, dsxt, dsdx}, {})}
@@ -71,7 +78,7 @@ Fam2b(Trees, Lists, Adds) ==
 Protos3 == {P(RD, {}), P(FF, {}), P(MM, {}), P(RE, {"txt"}), P(PP, {})}
 Lists3(n) == UNION {[1..m -> Protos3] : m \in 0..n}
 Trees3 == {Tree({ff}, {}), Tree({ff, dxt}, {}), Tree({ff, dxt, ext}, {dt}), Tree({dxt}, {}),
-           TreeP({dxt}, {}, {pp}), TreeP({ff, dxt, ext}, {}, {pp})}
+           TreeP({dxt}, {}, {pp}), TreeP({ff, dxt, ext}, {}, {pp}), TreeP({ff, dxt, ext}, {}, {pp, dq, dqt, elt})}
 Fam3a(n) == {Scn(tr, TRUE, FALSE, <<PC(Mk(l, 0), "N", "N")>>) : tr \in Trees3, l \in Lists3(n)}
 Fam3b(n) == {Scn(tr, TRUE, FALSE, <<PC(Mk(l, 0), "N", "N"), PC(Mk(a, 1), "N", "T")>>)
                : tr \in Trees3, l \in Lists3(n), a \in {<<>>, <<P(FF, {})>>, <<P(PP, {})>>}}
@@ -102,8 +109,9 @@ Trees5 == {Tree({dxt, dxp}, {}), Tree({dx, dxt, dsxt}, {})}
 \* stacks them in layers) and then, through `root`, an overlay in which a name that was a file (d/x; d/x.txt or
 \* d/x.png with trimming) is a directory with files below it. Every directory on the way to those files is a
 \* sub-map, whatever held its key
+\* (in the last overlay the special entries d/q.txt and d/s/l appear next to what the base tree had)
 Bases6 == {Tree({dx}, {}), Tree({dx, dxt}, {}), Tree({dxt, dxp, dyg}, {}), Tree({dx, dsxt}, {dt})}
-Overs6 == {Tree({dxzt}, {}), Tree({dxzt, dxuxt, dyg}, {}), Tree({dxuxt, dsxt}, {})}
+Overs6 == {Tree({dxzt}, {}), Tree({dxzt, dxuxt, dyg}, {}), Tree({dxuxt, dsxt}, {}), TreeP({dxzt, dsxt}, {}, {dqt, dsl})}
 Fam6a == {ScnT(<<b, o>>, FALSE, FALSE, <<PC(Mk(l, 0), n1, t), PCR(Mk(a, 2), n2, t, 2)>>, {})
             : b \in Bases6, o \in Overs6, l \in Lists4, a \in Adds2, n1 \in BoolOpt, n2 \in BoolOpt, t \in BoolOpt}
 Fam6b == {ScnT(<<b, o>>, TRUE, ct, <<PC(Mk(l, 0), n1, "N"), PC(<<>>, n2, "N"), PCR(<<>>, n3, "N", 2)>>, {})
